@@ -666,3 +666,51 @@ Proof.
   destruct (g_shift_wrappers_eq bits _ (64 - bits mod 64) Hb HB Lr ltac:(lia)) as (_ & _ & _ & _ & Es).
   rewrite Es. cbn [obind]. rewrite (PfModelsAgree.agree_bits_shr_local bits _ _ Hb Lr). reflexivity.
 Qed.
+
+(* ---------------- bits.rs: most_significant_bits ---------------- *)
+From RV.Proofs Require PfBits.
+Lemma iter_rposition_eq p l : iter_rposition p l = Bits.rposition p l.
+Proof. induction l as [|x t IH]; cbn [iter_rposition Bits.rposition]; [reflexivity|]. now rewrite IH. Qed.
+
+Theorem g_most_significant_bits_eq bits a :
+  64 * lenZ a < B -> Forall inW a ->
+  g_most_significant_bits bits (nlimbs bits) a = Bits.most_significant_bits a.
+Proof.
+  intros HB Wa. unfold g_most_significant_bits, Bits.most_significant_bits. cbv zeta.
+  rewrite iter_rposition_eq. change (fun limb => negb (limb =? 0)) with Bits.nonzero.
+  pose proof (PfBits.rposition_spec Bits.nonzero a) as R.
+  destruct (Bits.rposition Bits.nonzero a) as [m|].
+  2:{ cbn [Z.eqb]. destruct a; reflexivity. }
+  destruct R as (j & -> & Hj & Pj & _).
+  destruct (Z.eqb_spec (Z.of_nat j) 0) as [E|N]; [destruct a; reflexivity|].
+  assert (Hlen : Z.of_nat j < lenZ a) by (unfold lenZ; lia).
+  rewrite (PfGenBits.idx_index a (Z.of_nat j)) by lia.
+  rewrite chk64_ok by lia. cbn [obind].
+  rewrite (PfGenBits.idx_index a (Z.of_nat j - 1)) by lia.
+  assert (Ehi : Bits.index a (Z.of_nat j) = Val (nth j a 0)).
+  { rewrite <- PfGenBits.idx_index by lia. apply PfGenLimbs.idx_nth. exact Hj. }
+  rewrite Ehi. cbn [obind].
+  destruct (Bits.index a (Z.of_nat j - 1)) as [lo| | | |]; try reflexivity. cbn [obind].
+  set (hi := nth j a 0) in *.
+  assert (Whi : inW hi).
+  { unfold hi. rewrite Forall_forall in Wa. apply Wa. apply nth_In. exact Hj. }
+  assert (Nhi : hi <> 0).
+  { unfold Bits.nonzero in Pj. destruct (Z.eqb_spec hi 0); [discriminate | assumption]. }
+  pose proof (clz64_range hi Whi) as Rlz.
+  assert (Hlz : clz64 hi < 64).
+  { unfold clz64. destruct (Z.eqb_spec hi 0); [contradiction|]. pose proof (Z.log2_nonneg hi). lia. }
+  destruct (Z.ltb_spec 0 (clz64 hi)).
+  - unfold chksh. replace ((0 <=? clz64 hi) && (clz64 hi <? 64)) with true by lia. cbn [obind].
+    rewrite chk64_ok by lia. cbn [obind].
+    replace ((0 <=? 64 - clz64 hi) && (64 - clz64 hi <? 64)) with true by lia. cbn [obind].
+    rewrite chk64_ok by lia. cbn [obind].
+    unfold Bits.usub, chk64.
+    destruct (Z.ltb_spec (Z.of_nat j * 64) (clz64 hi)).
+    + replace (0 <=? Z.of_nat j * 64 - clz64 hi) with false by lia. reflexivity.
+    + replace ((0 <=? Z.of_nat j * 64 - clz64 hi) && (Z.of_nat j * 64 - clz64 hi <? B)) with true by lia. reflexivity.
+  - cbn [obind]. rewrite chk64_ok by lia. cbn [obind].
+    unfold Bits.usub, chk64.
+    destruct (Z.ltb_spec (Z.of_nat j * 64) (clz64 hi)).
+    + replace (0 <=? Z.of_nat j * 64 - clz64 hi) with false by lia. reflexivity.
+    + replace ((0 <=? Z.of_nat j * 64 - clz64 hi) && (Z.of_nat j * 64 - clz64 hi <? B)) with true by lia. reflexivity.
+Qed.
